@@ -123,3 +123,22 @@ Proof.
   cbn [bind] in H. destruct (Z.ltb_spec (zlen data) n) as [Hlt|Hge]; [assumption|].
   destruct (update_second_pass_total k modes data n Hn Hge) as [st Hst]. rewrite Hst in H. discriminate.
 Qed.
+
+(* ---- ktensor.from_vector as GENERATED (Gen/GenKtensor4b.v; bridge from_vector_bridge of Proofs/W4FromVector.v): whatever the guard
+   model of Model/C19Guards.v rejects, the generated classmethod rejects ---- *)
+From PV Require Import Np.NpZ4c Gen.GenKtensor4b Model.W4FromVector Proofs.W4FromVector Proofs.C19W5.
+Theorem from_vector_gen_rejects (data shape : vec) (cw : bool) :
+  guard_from_vector (zlen data) shape cw = Err -> ktensor_from_vector tt data shape cw = Err.
+Proof.
+  rewrite from_vector_bridge. unfold guard_from_vector, H_from_vector. cbv zeta.
+  change (C19Guards.zsum shape) with (NpZ3c.zsum shape).
+  destruct (_ =? 0); cbn [andthen]; [reflexivity|]. destruct (negb _); [reflexivity|discriminate].
+Qed.
+(* ... and an answered request had the precondition *)
+Theorem from_vector_gen_answered_pre (data shape : vec) (cw : bool) (k : ktz) :
+  ktensor_from_vector tt data shape cw = Ok k -> pre_from_vector (zlen data) shape cw = true.
+Proof.
+  intros H. destruct (pre_from_vector (zlen data) shape cw) eqn:E; [reflexivity|].
+  pose proof (from_vector_decides (zlen data) shape cw) as D. rewrite E in D. cbn [decide] in D.
+  rewrite (from_vector_gen_rejects _ _ _ D) in H. discriminate.
+Qed.
